@@ -2,7 +2,7 @@
    (Model/BuilderNested.v).  A successful Compile of the outer graph has compiled — frozen — every
    inner graph one of its nodes holds; a frozen inner graph refuses every Add* and is never changed
    again by any call sequence on the outer graph or on the inner graphs (further Compiles included). *)
-From Eino Require Import Base.Util Model.Builder Model.BuilderNested Proofs.Builder.
+From Eino Require Import Base.Util Model.Builder Model.BuilderNested Proofs.Builder Proofs.BuilderSound Proofs.BuilderReject2 Proofs.BuilderSticky.
 From Coq Require Import List String Bool Lia Permutation.
 Import ListNotations.
 Local Open Scope string_scope.
@@ -52,21 +52,39 @@ Proof.
 Qed.
 
 (* ---- compiling the children *)
-Lemma cc_keeps_compiled : forall ids inn inn' f id gi,
-  compile_children ids inn = (inn', f) -> nlookup id inn = Some gi -> g_compiled gi = true -> nlookup id inn' = Some gi.
+Lemma inner_compile_compiled : forall i, g_compiled (inner_graph i) = true -> inner_graph (fst (inner_compile i)) = inner_graph i.
 Proof.
-  induction ids as [|id0 ids IH]; intros inn inn' f id gi H L C; simpl in H.
-  - inversion H; subst; assumption.
+  intros [g|c] C; simpl in *.
+  - pose proof (compiled_compile g opt_default C) as S. destruct (g_compile fixed g opt_default); simpl in *; assumption.
+  - pose proof (compiled_c_compile c opt_default C) as S. destruct (c_compile fixed c opt_default); simpl in *; assumption.
+Qed.
+
+Lemma inner_compile_ok_compiled : forall i i' r, inner_compile i = (i', OCompiled r) -> g_compiled (inner_graph i') = true.
+Proof.
+  intros [g|c] i' r; simpl.
+  - destruct (g_compile fixed g opt_default) as [g' o] eqn:G. intros H; inversion H; subst. simpl. eapply g_compile_ok_compiled; eauto.
+  - destruct (c_compile fixed c opt_default) as [c' o] eqn:G. intros H; inversion H; subst. simpl. eapply c_compile_ok_compiled; eauto.
+Qed.
+
+Lemma cc_keeps_compiled : forall ids inn inn' f id i,
+  compile_children ids inn = (inn', f) -> nlookup id inn = Some i -> g_compiled (inner_graph i) = true ->
+  exists i', nlookup id inn' = Some i' /\ inner_graph i' = inner_graph i.
+Proof.
+  induction ids as [|id0 ids IH]; intros inn inn' f id i H L C; simpl in H.
+  - inversion H; subst. exists i; auto.
   - destruct (nlookup id0 inn) as [g0|] eqn:L0; [|eapply IH; eauto].
-    destruct (g_compile fixed g0 opt_default) as [g0' o] eqn:G.
-    assert (K : nlookup id (nupdate id0 g0' inn) = Some gi).
+    destruct (inner_compile g0) as [g0' o] eqn:G.
+    assert (K : exists i1, nlookup id (nupdate id0 g0' inn) = Some i1 /\ inner_graph i1 = inner_graph i).
     { destruct (String.eqb id0 id) eqn:E.
       - apply String.eqb_eq in E; subst id0. rewrite L in L0; inversion L0; subst g0.
-        pose proof (compiled_compile gi opt_default C) as S. rewrite G in S; simpl in S; subst g0'.
-        rewrite nupdate_id; assumption.
-      - apply String.eqb_neq in E. rewrite nlookup_nupdate_other; assumption. }
-    destruct o; try (inversion H; subst; assumption).
-    eapply IH; eauto.
+        pose proof (inner_compile_compiled i C) as S. rewrite G in S; simpl in S.
+        exists g0'. split; [apply nlookup_nupdate_same; congruence|assumption].
+      - apply String.eqb_neq in E. exists i. rewrite nlookup_nupdate_other; auto. }
+    destruct K as [i1 [K1 K2]].
+    destruct o; try solve [inversion H; subst; exists i1; auto].
+    assert (C1 : g_compiled (inner_graph i1) = true) by (rewrite K2; assumption).
+    destruct (IH _ _ _ _ _ H K1 C1) as [i2 [A B]].
+    exists i2. split; [assumption|congruence].
 Qed.
 
 Lemma cc_dom : forall ids inn inn' f id,
@@ -75,7 +93,7 @@ Proof.
   induction ids as [|id0 ids IH]; intros inn inn' f id H L; simpl in H.
   - inversion H; subst; assumption.
   - destruct (nlookup id0 inn) as [g0|] eqn:L0; [|eapply IH; eauto].
-    destruct (g_compile fixed g0 opt_default) as [g0' o] eqn:G.
+    destruct (inner_compile g0) as [g0' o] eqn:G.
     assert (K : nlookup id (nupdate id0 g0' inn) = None).
     { destruct (String.eqb id0 id) eqn:E.
       - apply String.eqb_eq in E; subst id0. congruence.
@@ -86,16 +104,16 @@ Qed.
 
 Lemma cc_all_compiled : forall ids inn inn',
   compile_children ids inn = (inn', None) ->
-  forall id gi, In id ids -> nlookup id inn' = Some gi -> g_compiled gi = true.
+  forall id i, In id ids -> nlookup id inn' = Some i -> g_compiled (inner_graph i) = true.
 Proof.
-  induction ids as [|id0 ids IH]; intros inn inn' H id gi I L; simpl in *; [contradiction|].
+  induction ids as [|id0 ids IH]; intros inn inn' H id i I L; simpl in *; [contradiction|].
   destruct (nlookup id0 inn) as [g0|] eqn:L0.
-  - destruct (g_compile fixed g0 opt_default) as [g0' o] eqn:G.
+  - destruct (inner_compile g0) as [g0' o] eqn:G.
     destruct o; try discriminate.
     destruct I as [I|I].
-    + subst id0. pose proof (g_compile_ok_compiled _ _ _ _ _ G) as C.
+    + subst id0. pose proof (inner_compile_ok_compiled _ _ _ G) as C.
       assert (K : nlookup id (nupdate id g0' inn) = Some g0') by (apply nlookup_nupdate_same; congruence).
-      pose proof (cc_keeps_compiled _ _ _ _ _ _ H K C) as K'. rewrite K' in L; inversion L; subst; assumption.
+      destruct (cc_keeps_compiled _ _ _ _ _ _ H K C) as [i' [A B]]. rewrite A in L; inversion L; subst. rewrite B; assumption.
     + eapply IH; eauto.
   - destruct I as [I|I].
     + subst id0. pose proof (cc_dom _ _ _ _ _ H L0). congruence.
@@ -116,12 +134,13 @@ Proof.
 Qed.
 
 (* ---- a successful Compile of the outer graph freezes the children *)
-Definition child_frozen (s : nstate) (id : string) (gi : gstate) : Prop :=
-  nlookup id (ns_inn s) = Some gi /\ g_compiled gi = true.
+(* the inner builder [id] is compiled and its graph is [g] *)
+Definition child_frozen (s : nstate) (id : string) (g : gstate) : Prop :=
+  exists i, nlookup id (ns_inn s) = Some i /\ inner_graph i = g /\ g_compiled g = true.
 
-Lemma n_compile_freezes : forall keys s o s1 r k id gi,
+Lemma n_compile_freezes : forall keys s o s1 r k id i,
   n_compile_in keys s o = (s1, OCompiled r) ->
-  In k keys -> nlookup k (ns_att s) = Some id -> nlookup id (ns_inn s1) = Some gi -> g_compiled gi = true.
+  In k keys -> nlookup k (ns_att s) = Some id -> nlookup id (ns_inn s1) = Some i -> g_compiled (inner_graph i) = true.
 Proof.
   intros keys s o s1 r k id gi H I A L. unfold n_compile_in in H.
   destruct (reaches_children (ns_out s) o) eqn:R.
@@ -133,102 +152,221 @@ Proof.
   - destruct (not_reaching_fails _ _ R) as [e E]. rewrite E in H. inversion H.
 Qed.
 
-Theorem nested_compile_freezes_children : forall s o s1 r k id gi,
+Theorem nested_compile_freezes_children : forall s o s1 r k id i,
   nstep s (NOuter (GCompile o)) = (s1, OCompiled r) ->
-  In k (map fst (g_nodes (ns_out s))) -> nlookup k (ns_att s) = Some id -> nlookup id (ns_inn s1) = Some gi ->
-  child_frozen s1 id gi.
+  In k (map fst (g_nodes (ns_out s))) -> nlookup k (ns_att s) = Some id -> nlookup id (ns_inn s1) = Some i ->
+  child_frozen s1 id (inner_graph i).
 Proof.
-  intros s o s1 r k id gi H I A L. split; [assumption|]. simpl in H.
+  intros s o s1 r k id i H I A L. exists i. split; [assumption|]. split; [reflexivity|]. simpl in H.
   eapply n_compile_freezes; eauto. apply sort_by_In; assumption.
 Qed.
 
-(* ---- a frozen child refuses every modification, and no call changes it *)
+(* ---- a frozen child refuses every modification, and no call changes its graph *)
 Lemma mkN_eta : forall s, mkN (ns_out s) (ns_inn s) (ns_att s) = s.
 Proof. destruct s; reflexivity. Qed.
 
+(* a Graph child: every Add* is answered with ErrGraphCompiled, nothing changes *)
 Theorem nested_frozen_child_refuses : forall s id gi c,
-  child_frozen s id gi -> g_err gi = None -> is_add c = true ->
-  nstep s (NInner id c) = (s, OErr ECompiled).
+  nlookup id (ns_inn s) = Some (IG gi) -> g_compiled gi = true -> g_err gi = None -> is_add c = true ->
+  nstep s (NInner id (KG c)) = (s, OErr ECompiled).
 Proof.
-  intros s id gi c [L C] E A. simpl. rewrite L.
+  intros s id gi c L C E A. simpl. rewrite L. simpl.
   rewrite (compiled_add_refused gi c C E A). rewrite (nupdate_id _ _ _ L), mkN_eta. reflexivity.
 Qed.
 
-Lemma nstep_keeps_frozen : forall s c id gi, child_frozen s id gi -> child_frozen (fst (nstep s c)) id gi.
+(* a Chain child: an Append* cannot return an error; it leaves the graph alone and records ErrChainCompiled, which the
+   chain's compile — the one its parent calls — returns from then on *)
+Theorem nested_frozen_chain_child_reports : forall s id ch nk key ns,
+  nlookup id (ns_inn s) = Some (IC ch) -> g_compiled (c_g ch) = true ->
+  exists ch', nlookup id (ns_inn (fst (nstep s (NInner id (KC (CAppend nk key ns)))))) = Some (IC ch')
+    /\ c_g ch' = c_g ch /\ exists e, c_err ch' = Some e /\ inner_compile (IC ch') = (IC ch', OErr e).
 Proof.
-  intros s c id gi [L C]. destruct c as [c'|k id0 ok|id0 c'].
-  - assert (Other : forall g' (o : outcome), child_frozen (mkN g' (ns_inn s) (ns_att s)) id gi) by (intros; split; assumption).
+  intros s id ch nk key ns L C. simpl. rewrite L. simpl.
+  exists (c_append ch nk key ns). split; [apply nlookup_nupdate_same; congruence|].
+  split; [apply frozen_c_append; left; assumption|].
+  pose proof (compiled_append_reported ch nk key ns C) as R.
+  destruct (c_err (c_append ch nk key ns)) as [e|] eqn:E; [|congruence].
+  exists e. split; [reflexivity|]. simpl. rewrite (c_compile_err _ opt_default _ E). reflexivity.
+Qed.
+
+Lemma istep_compiled : forall i c, g_compiled (inner_graph i) = true -> inner_graph (fst (istep i c)) = inner_graph i.
+Proof.
+  intros [g|ch] [c|c] C; simpl in *; try reflexivity.
+  - pose proof (compiled_gstep g c C) as S. destruct (gstep fixed g c); simpl in *; assumption.
+  - pose proof (compiled_cstep ch c C) as S. destruct (cstep fixed ch c); simpl in *; assumption.
+Qed.
+
+Lemma nstep_keeps_frozen : forall s c id g, child_frozen s id g -> child_frozen (fst (nstep s c)) id g.
+Proof.
+  intros s c id g [i [L [EQ C]]]. destruct c as [c'|k id0 kd|id0 c'].
+  - assert (Other : forall g' (o : outcome), child_frozen (mkN g' (ns_inn s) (ns_att s)) id g) by (intros; exists i; auto).
     destruct c' as [k nk a b|a b|a ends|o]; simpl;
       try (match goal with |- context [let '(_, _) := ?X in _] => destruct X end; simpl; apply Other; exact OOk).
+    assert (Ci : g_compiled (inner_graph i) = true) by (rewrite EQ; assumption).
     unfold n_compile_in. destruct (reaches_children (ns_out s) o).
     + destruct (compile_children (children_of s (sorted_keys (ns_out s))) (ns_inn s)) as [inn' failed] eqn:CC.
-      pose proof (cc_keeps_compiled _ _ _ _ _ _ CC L C) as K.
-      destruct failed; [|destruct (g_compile fixed (ns_out s) o)]; simpl; split; assumption.
-    + destruct (g_compile fixed (ns_out s) o); simpl; split; assumption.
-  - simpl. destruct (g_add_node (ns_out s) k NSubOk false false false) as [g' o]. simpl. split; [|assumption].
+      destruct (cc_keeps_compiled _ _ _ _ _ _ CC L Ci) as [i' [K1 K2]].
+      destruct failed; [|destruct (g_compile fixed (ns_out s) o)]; simpl; exists i'; (split; [assumption|split; [congruence|assumption]]).
+    + destruct (g_compile fixed (ns_out s) o); simpl; exists i; auto.
+  - simpl. destruct (g_add_node (ns_out s) k NSubOk false false false) as [g' o]. simpl. exists i. split; [|auto].
     destruct (nlookup id0 (ns_inn s)); [assumption|apply nlookup_app; assumption].
-  - simpl. destruct (nlookup id0 (ns_inn s)) as [g0|] eqn:L0; [|split; assumption].
-    destruct (gstep fixed g0 c') as [g0' o] eqn:G. simpl. split; [|assumption]. cbn [ns_inn].
+  - simpl. destruct (nlookup id0 (ns_inn s)) as [g0|] eqn:L0; [|exists i; auto].
+    destruct (istep g0 c') as [g0' o] eqn:G. simpl. cbn [ns_inn].
     destruct (String.eqb id0 id) eqn:E.
     + apply String.eqb_eq in E; subst id0. rewrite L in L0; inversion L0; subst g0.
-      pose proof (compiled_gstep gi c' C) as S. rewrite G in S; simpl in S; subst g0'.
-      rewrite nupdate_id; assumption.
-    + apply String.eqb_neq in E. rewrite nlookup_nupdate_other; assumption.
+      assert (Ci : g_compiled (inner_graph i) = true) by (rewrite EQ; assumption).
+      pose proof (istep_compiled i c' Ci) as S. rewrite G in S; simpl in S.
+      exists g0'. cbn [ns_inn]. split; [apply nlookup_nupdate_same; congruence|split; [congruence|assumption]].
+    + apply String.eqb_neq in E. exists i. cbn [ns_inn]. rewrite nlookup_nupdate_other; auto.
 Qed.
 
-Theorem nested_frozen_child_unchanged : forall cs s id gi,
-  child_frozen s id gi -> child_frozen (final nstep s cs) id gi.
+Theorem nested_frozen_child_unchanged : forall cs s id g,
+  child_frozen s id g -> child_frozen (final nstep s cs) id g.
 Proof.
-  unfold final. induction cs as [|c cs IH]; intros s id gi F; simpl; [assumption|].
-  pose proof (nstep_keeps_frozen s c id gi F) as F1. destruct (nstep s c) as [s1 o]; simpl in F1.
-  specialize (IH s1 id gi F1). destruct (run_calls nstep s1 cs); simpl in *; assumption.
+  unfold final. induction cs as [|c cs IH]; intros s id g F; simpl; [assumption|].
+  pose proof (nstep_keeps_frozen s c id g F) as F1. destruct (nstep s c) as [s1 o]; simpl in F1.
+  specialize (IH s1 id g F1). destruct (run_calls nstep s1 cs); simpl in *; assumption.
 Qed.
 
-(* after a successful Compile of the outer graph: every inner graph held by one of its nodes is compiled, stays what it
-   is under every later call sequence, and answers every Add* with ErrGraphCompiled *)
-Theorem nested_no_modification_after_compile : forall s o s1 r k id gi cs c,
+(* after a successful Compile of the outer graph: every inner builder held by one of its nodes is compiled and its graph
+   stays what it is under every later call sequence; a Graph child answers every Add* with ErrGraphCompiled *)
+Theorem nested_no_modification_after_compile : forall s o s1 r k id i cs,
   nstep s (NOuter (GCompile o)) = (s1, OCompiled r) ->
-  In k (map fst (g_nodes (ns_out s))) -> nlookup k (ns_att s) = Some id -> nlookup id (ns_inn s1) = Some gi ->
-  g_err gi = None -> is_add c = true ->
+  In k (map fst (g_nodes (ns_out s))) -> nlookup k (ns_att s) = Some id -> nlookup id (ns_inn s1) = Some i ->
   let s2 := final nstep s1 cs in
-  child_frozen s2 id gi /\ nstep s2 (NInner id c) = (s2, OErr ECompiled).
+  child_frozen s2 id (inner_graph i)
+  /\ (forall gi c, nlookup id (ns_inn s2) = Some (IG gi) -> g_err gi = None -> is_add c = true ->
+        nstep s2 (NInner id (KG c)) = (s2, OErr ECompiled)).
 Proof.
-  intros s o s1 r k id gi cs c H I A L E Ad s2.
+  intros s o s1 r k id i cs H I A L s2.
   pose proof (nested_compile_freezes_children _ _ _ _ _ _ _ H I A L) as F.
   pose proof (nested_frozen_child_unchanged cs _ _ _ F) as F2. split; [exact F2|].
-  apply nested_frozen_child_refuses with (gi := gi); assumption.
+  intros gi c L2 E Ad. destruct F2 as [i2 [L3 [EQ C]]]. fold s2 in L3. rewrite L2 in L3; inversion L3; subst i2. simpl in EQ.
+  apply nested_frozen_child_refuses with (gi := gi); try assumption. rewrite EQ; assumption.
 Qed.
 
 (* ---- the order in which the children are compiled matters when one of them fails (F-C20g) *)
 Definition two_children : nstate :=
   final nstep (n_init false)
-    [NSub "x" "s1" true; NSub "y" "s2" false; NOuter (GAddEdge START "x"); NOuter (GAddEdge "x" "y"); NOuter (GAddEdge "y" END_)].
+    [NSub "x" "s1" (SKGraph true); NSub "y" "s2" (SKGraph false); NOuter (GAddEdge START "x"); NOuter (GAddEdge "x" "y"); NOuter (GAddEdge "y" END_)].
 
 Definition probe (keys : list string) : outcome :=
-  snd (nstep (fst (n_compile_in keys two_children opt_default)) (NInner "s1" (GAddNode "t" NLambda false false))).
+  snd (nstep (fst (n_compile_in keys two_children opt_default)) (NInner "s1" (KG (GAddNode "t" NLambda false false)))).
 
 Lemma child_order_matters : probe ["x"; "y"] = OErr ECompiled /\ probe ["y"; "x"] = OOk.
 Proof. split; vm_compute; reflexivity. Qed.
 
 Lemma child_order_fixed : snd (nstep two_children (NOuter (GCompile opt_default))) = OErr ENoStart
-  /\ snd (nstep (fst (nstep two_children (NOuter (GCompile opt_default)))) (NInner "s1" (GAddNode "t" NLambda false false))) = OErr ECompiled.
+  /\ snd (nstep (fst (nstep two_children (NOuter (GCompile opt_default)))) (NInner "s1" (KG (GAddNode "t" NLambda false false)))) = OErr ECompiled.
 Proof. split; vm_compute; reflexivity. Qed.
 
 Lemma child_order_v0_false :
   ~ (forall keys1 keys2 s o id c, Permutation keys1 keys2 ->
        snd (nstep (fst (n_compile_in keys1 s o)) (NInner id c)) = snd (nstep (fst (n_compile_in keys2 s o)) (NInner id c))).
 Proof.
-  intros H. specialize (H ["x"; "y"] ["y"; "x"] two_children opt_default "s1" (GAddNode "t" NLambda false false) (perm_swap _ _ _)).
+  intros H. specialize (H ["x"; "y"] ["y"; "x"] two_children opt_default "s1" (KG (GAddNode "t" NLambda false false)) (perm_swap _ _ _)).
   destruct child_order_matters as [A B]. unfold probe in A, B. rewrite A, B in H. discriminate H.
 Qed.
 
 Definition one_child_run : list ncall :=
-  [NSub "x" "s1" true; NOuter (GAddEdge START "x"); NOuter (GAddEdge "x" END_); NOuter (GCompile opt_default);
-   NInner "s1" (GAddNode "t" NLambda false false); NInner "s1" (GAddEdge "s" "s"); NOuter (GCompile opt_default)].
+  [NSub "x" "s1" (SKGraph true); NSub "y" "s2" (SKChain true); NOuter (GAddEdge START "x"); NOuter (GAddEdge "x" "y"); NOuter (GAddEdge "y" END_);
+   NOuter (GCompile opt_default);
+   NInner "s1" (KG (GAddNode "t" NLambda false false)); NInner "s1" (KG (GAddEdge "s" "s")); NOuter (GCompile opt_default);
+   NInner "s2" (KC (CAppend NLambda None false)); NInner "s2" (KC (CCompile opt_default)); NOuter (GCompile opt_default)].
 
 Lemma one_child_run_outcomes :
   match snd (run_calls nstep (n_init false) one_child_run) with
-  | [OOk; OOk; OOk; OCompiled _; OErr ECompiled; OErr ECompiled; OCompiled _] => True
+  | [OOk; OOk; OOk; OOk; OOk; OCompiled _; OErr ECompiled; OErr ECompiled; OCompiled _; OOk; OErr EChainCompiled; OErr EChainCompiled] => True
   | _ => False
   end.
 Proof. vm_compute. exact I. Qed.
+
+(* ---- every attachment names a node of the outer graph, in every reachable state *)
+Definition att_inv (s : nstate) : Prop :=
+  forall k id, nlookup k (ns_att s) = Some id -> In k (keys (ns_out s)).
+
+Lemma add_node_keys_incl : forall g k nk a b c x, In x (keys g) -> In x (keys (fst (g_add_node g k nk a b c))).
+Proof.
+  intros g k nk a b c x I. unfold g_add_node. destruct (g_err g); [assumption|].
+  repeat (match goal with |- context [if ?X then _ else _] => destruct X end; try assumption).
+  unfold keys in *. simpl. rewrite map_app. apply in_or_app. left; assumption.
+Qed.
+
+Lemma add_node_ok_in : forall g k nk a b c g', g_add_node g k nk a b c = (g', OOk) -> In k (keys g').
+Proof.
+  intros g k nk a b c g'. unfold g_add_node. destruct (g_err g); [discriminate|].
+  repeat (match goal with |- context [if ?X then _ else _] => destruct X end; try (unfold fail; discriminate)).
+  intros H; inversion H; subst. unfold keys. simpl. rewrite map_app. apply in_or_app. right; simpl; auto.
+Qed.
+
+Lemma g_compile_keys : forall g o, keys (fst (g_compile fixed g o)) = keys g.
+Proof. intros g o. destruct (g_compile_fixed_state g o) as [H|H]; rewrite H; reflexivity. Qed.
+
+Lemma gstep_keys_incl : forall g c x, In x (keys g) -> In x (keys (fst (gstep fixed g c))).
+Proof.
+  intros g [k nk a b|s e|s ends|o] x I; simpl.
+  - apply add_node_keys_incl; assumption.
+  - rewrite keys_add_edge; assumption.
+  - rewrite keys_add_branch; assumption.
+  - rewrite g_compile_keys; assumption.
+Qed.
+
+Lemma nlookup_app_inv : forall {A} k (v : A) l k0 v0,
+  nlookup k (l ++ [(k0, v0)]) = Some v -> nlookup k l = Some v \/ k = k0.
+Proof.
+  intros A k v l k0 v0; induction l as [|[x w] l IH]; simpl.
+  - destruct (String.eqb k k0) eqn:E; [apply String.eqb_eq in E; auto|discriminate].
+  - destruct (String.eqb k x); auto.
+Qed.
+
+Lemma n_compile_out : forall ks s o, ns_att (fst (n_compile_in ks s o)) = ns_att s /\ keys (ns_out (fst (n_compile_in ks s o))) = keys (ns_out s).
+Proof.
+  intros ks s o. unfold n_compile_in. destruct (reaches_children (ns_out s) o).
+  - destruct (compile_children (children_of s ks) (ns_inn s)) as [inn' failed]. destruct failed.
+    + simpl; auto.
+    + pose proof (g_compile_keys (ns_out s) o) as K. destruct (g_compile fixed (ns_out s) o); simpl in *; auto.
+  - pose proof (g_compile_keys (ns_out s) o) as K. destruct (g_compile fixed (ns_out s) o); simpl in *; auto.
+Qed.
+
+Lemma nstep_att_inv : forall s c, att_inv s -> att_inv (fst (nstep s c)).
+Proof.
+  intros s c I. destruct c as [c'|k id0 ok|id0 c'].
+  - destruct c' as [k nk a b|a b|a ends|o].
+    1-3: (simpl; match goal with |- context [let '(_, _) := ?X in _] => pose proof (gstep_keys_incl (ns_out s)) as G; destruct X eqn:E end;
+          simpl; intros k' id' L; specialize (I k' id' L)).
+    + specialize (G (GAddNode k nk a b) k' I). simpl in G. rewrite E in G. exact G.
+    + specialize (G (GAddEdge a b) k' I). simpl in G. rewrite E in G. exact G.
+    + specialize (G (GAddBranch a ends) k' I). simpl in G. rewrite E in G. exact G.
+    + simpl. destruct (n_compile_out (sorted_keys (ns_out s)) s o) as [A K]. intros k' id' L. rewrite A in L. rewrite K. apply I with id'; assumption.
+  - simpl. destruct (g_add_node (ns_out s) k NSubOk false false false) as [g' o] eqn:E. simpl. intros k' id' L.
+    assert (Old : nlookup k' (ns_att s) = Some id' -> In k' (keys g')).
+    { intros L0. pose proof (add_node_keys_incl (ns_out s) k NSubOk false false false k' (I _ _ L0)) as G. rewrite E in G. exact G. }
+    destruct o; auto.
+    apply nlookup_app_inv in L. destruct L as [L|L]; [auto|]. subst k'. eapply add_node_ok_in; eauto.
+  - simpl. destruct (nlookup id0 (ns_inn s)) as [i0|]; [|assumption]. destruct (istep i0 c'). exact I.
+Qed.
+
+Lemma reachable_att_inv : forall cs s, att_inv s -> att_inv (final nstep s cs).
+Proof.
+  unfold final. induction cs as [|c cs IH]; intros s I; simpl; [assumption|].
+  pose proof (nstep_att_inv s c I) as I1. destruct (nstep s c) as [s1 o]; simpl in I1.
+  specialize (IH s1 I1). destruct (run_calls nstep s1 cs); simpl in *; assumption.
+Qed.
+
+Lemma att_inv_init : forall st, att_inv (n_init st).
+Proof. intros st k id L. discriminate L. Qed.
+
+(* the theorem for the states the correspondence replays: whatever was called before *)
+Theorem nested_no_modification_after_compile_reachable : forall st cs0 o s1 r k id i cs,
+  let s := final nstep (n_init st) cs0 in
+  nstep s (NOuter (GCompile o)) = (s1, OCompiled r) ->
+  nlookup k (ns_att s) = Some id -> nlookup id (ns_inn s1) = Some i ->
+  let s2 := final nstep s1 cs in
+  child_frozen s2 id (inner_graph i)
+  /\ (forall gi c, nlookup id (ns_inn s2) = Some (IG gi) -> g_err gi = None -> is_add c = true ->
+        nstep s2 (NInner id (KG c)) = (s2, OErr ECompiled)).
+Proof.
+  intros st cs0 o s1 r k id i cs s H A L.
+  apply nested_no_modification_after_compile with (s := s) (o := o) (r := r) (k := k); try assumption.
+  apply (reachable_att_inv cs0 (n_init st) (att_inv_init st)) with id. exact A.
+Qed.
